@@ -382,19 +382,25 @@ func sortKey(v reflect.Value) string {
 		}
 		return sortKey(v)
 	}
+	if v.Type().Implements(goEnumT) && v.Kind() == reflect.Int64 {
+		return "e" + v.Type().Name() + ":" + strconv.FormatInt(v.Int(), 10)
+	}
 	switch v.Kind() {
 	case reflect.Int8, reflect.Int16, reflect.Int32, reflect.Int64:
-		return strconv.FormatInt(v.Int(), 10)
+		return "i" + strconv.FormatInt(v.Int(), 10)
 	case reflect.Uint8, reflect.Uint16, reflect.Uint32, reflect.Uint64:
-		return strconv.FormatUint(v.Uint(), 10)
+		return "i" + strconv.FormatUint(v.Uint(), 10)
 	case reflect.String:
-		return v.String()
+		return "s" + v.String()
 	case reflect.Bool:
-		return strconv.FormatBool(v.Bool())
+		if v.Type().Name() == ygot.EmptyTypeName {
+			return "n"
+		}
+		return "b" + strconv.FormatBool(v.Bool())
 	case reflect.Float64:
-		return strconv.FormatUint(math.Float64bits(v.Float()), 10)
+		return "d" + strconv.FormatUint(math.Float64bits(v.Float()), 10)
 	case reflect.Slice:
-		return string(v.Bytes())
+		return "x" + string(v.Bytes())
 	}
 	return ""
 }
